@@ -106,8 +106,19 @@ def parse_sanitizer(err):
     return {"kind": short, "frames": frames}
 
 
+def _limits(stack_mb, nofile):
+    import resource
+
+    def fn():
+        if stack_mb:
+            resource.setrlimit(resource.RLIMIT_STACK, (stack_mb << 20, stack_mb << 20))
+        if nofile:
+            resource.setrlimit(resource.RLIMIT_NOFILE, (nofile, nofile))
+    return fn
+
+
 def run(build, args, env_extra=None, timeout=60, stdin_data=None, cwd=None, heap=None, raw_cmd=None,
-        want_log=True, max_out=8 << 20):
+        want_log=True, max_out=8 << 20, stack_mb=None, nofile=None):
     """Run chibi (or raw_cmd) from the given build; never raises on failure of the child."""
     r = Result()
     d = scratch_dir("p")
@@ -124,7 +135,8 @@ def run(build, args, env_extra=None, timeout=60, stdin_data=None, cwd=None, heap
     errf = open(os.path.join(d, "err"), "wb+")
     try:
         p = subprocess.Popen(cmd, cwd=cwd or build.src, env=env, stdin=subprocess.PIPE if stdin_data is not None
-                             else subprocess.DEVNULL, stdout=outf, stderr=errf, start_new_session=True)
+                             else subprocess.DEVNULL, stdout=outf, stderr=errf, start_new_session=True,
+                             preexec_fn=_limits(stack_mb, nofile) if (stack_mb or nofile) else None)
         try:
             p.communicate(stdin_data, timeout=timeout)
         except subprocess.TimeoutExpired:
